@@ -352,3 +352,44 @@ Proof.
   eapply dl_ext; [|apply (formal_is_true_derivative prog i x0 out Hi Hd)].
   intros t. cbv beta. symmetry. apply (value_correct Rops Rops_ring).
 Qed.
+
+(* ------------------------------------------------------------------ the caller-supplied functions
+   of the correspondence (Model/AD.v user1_table / user2_table): entries 0, 1, 2 satisfy the
+   hypothesis "the supplied derivative is the derivative" (entry 2 / 1 away from 0); entries 3 are
+   deliberately not derivatives (the API records what it is given: C04_sweep_is_gradient holds for
+   them, C04_formal_is_true_derivative does not apply) *)
+Lemma user1_table_derivative k F x : (k = 0%Z \/ k = 1%Z \/ (k = 2%Z /\ x <> 0)) ->
+  user1_table Rops k = Some F -> derivable_pt_lim (f1 F) x (f1dx F x).
+Proof.
+  intros Hk HF. destruct Hk as [Hk|[Hk|[Hk Hx]]]; subst k; cbn in HF; inversion HF; subst F; cbn [f1 f1dx]; unfold two; cbn.
+  - eapply dl_eq; [apply (derivable_pt_lim_mult id id x 1 1); apply derivable_pt_lim_id|unfold id; ring].
+  - eapply dl_eq.
+    + apply (derivable_pt_lim_plus (fun x => x * x * x) (fun x => (1 + 1) * x) x).
+      * apply (derivable_pt_lim_mult (fun x => x * x) id x).
+        -- apply (derivable_pt_lim_mult id id x 1 1); apply derivable_pt_lim_id.
+        -- apply derivable_pt_lim_id.
+      * apply (derivable_pt_lim_scal id (1 + 1) x 1). apply derivable_pt_lim_id.
+    + unfold id. ring.
+  - eapply dl_eq.
+    + apply (derivable_pt_lim_div (fun _ => 1) id x 0 1);
+        [apply derivable_pt_lim_const|apply derivable_pt_lim_id|exact Hx].
+    + unfold id, Rsqr. field. exact Hx.
+Qed.
+
+Lemma user2_table_derivative k F x y : (k = 0%Z \/ (k = 1%Z /\ y <> 0) \/ k = 2%Z) ->
+  user2_table Rops k = Some F -> total_derivative2 (f2 F) (f2dx F) (f2dy F) x y.
+Proof.
+  intros Hk HF u w t du dw Hu Hw Du Dw.
+  destruct Hk as [Hk|[[Hk Hy]|Hk]]; subst k; cbn in HF; inversion HF; subst F; cbn [f2 f2dx f2dy]; cbn; subst x y.
+  - eapply dl_eq.
+    + apply (derivable_pt_lim_plus (fun z => u z * w z) u t).
+      * apply (derivable_pt_lim_mult u w t du dw Du Dw).
+      * exact Du.
+    + ring.
+  - eapply dl_eq; [apply (derivable_pt_lim_div u w t du dw Du Dw Hy)|unfold Rsqr; field; exact Hy].
+  - eapply dl_eq.
+    + apply (derivable_pt_lim_minus u (fun z => w z * w z) t).
+      * exact Du.
+      * apply (derivable_pt_lim_mult w w t dw dw Dw Dw).
+    + ring.
+Qed.
